@@ -28,6 +28,14 @@ CONFIGS = [
                     Menu={'instant', 'borrow', 'leave', 'open', 'do', 'cancel'}), LOOSE),
     ('until', dict(B, NRoots=2, MaxActs=2, RootOps=4, MaxScopes=2, MaxPools=4, ResInit=1,
                    Menu={'instant', 'borrow', 'leave', 'until_f', 'fset'}), LOOSE),
+    # supplies with TWO resource types (levels and amounts are vectors): a borrow waits for, and takes, all types in
+    # one step; a claim fails if ANY type is short; set() replaces only the types it names
+    ('vec_contend', dict(B, NRoots=2, MaxActs=2, RootOps=3, MaxPools=4, ResInit=1, NT=2, ResInitB=1, AmtMax=1,
+                         Menu={'instant', 'borrow', 'claim', 'leave', 'levels'}), PURE + ('NonNegative',)),
+    ('vec_change', dict(B, NRoots=2, MaxActs=2, RootOps=3, MaxPools=3, ResInit=1, NT=2, ResInitB=1, MaxLevel=2, AmtMax=1,
+                        Menu={'borrow', 'leave', 'rchange', 'levels'}), LOOSE + ('NonNegative',)),
+    ('vec_close', dict(B, NRoots=1, MaxActs=2, RootOps=4, TaskOps=2, MaxPools=3, ResInit=1, NT=2, ResInitB=1, AmtMax=1,
+                       Menu={'instant', 'borrow', 'leave', 'open', 'do', 'raise', 'levels'}), LOOSE),
 ]
 THOROUGH = CONFIGS + [
     ('contend3', dict(B, NRoots=3, MaxActs=3, RootOps=3, MaxPools=5, ResInit=2,
